@@ -50,11 +50,32 @@ func (x *Exec) call(st *State, fr *Frame, site ssa.Instruction, c *ssa.CallCommo
 			return
 		}
 	}
-	if x.dry {
-		// effect computation: a local variable that only ever holds one closure
-		if fn := singleClosureOf(c.Value); fn != nil && x.E.contractFor(fn) != nil {
-			x.callFunc(st, fr, site, fn, nil, args, where, k)
-			return
+	// a local variable that only ever holds one function literal of this function: the call is
+	// a call of that literal, with the variables it captures
+	if fn, mc := singleClosureSite(c.Value); fn != nil && (x.dry || mc != nil) {
+		if x.dry {
+			if x.E.contractFor(fn) != nil {
+				x.callFunc(st, fr, site, fn, nil, args, where, k)
+				return
+			}
+		} else {
+			var binds []Val
+			ok := true
+			for _, b := range mc.Bindings {
+				if _, isAl := b.(*ssa.Alloc); !isAl {
+					ok = false
+					break
+				}
+				if _, has := st.regs[b]; !has {
+					ok = false
+					break
+				}
+				binds = append(binds, x.reg(st, fr, b))
+			}
+			if ok {
+				x.callFunc(st, fr, site, fn, binds, args, where, k)
+				return
+			}
 		}
 	}
 	// a function stored in a struct field may have a contract of its own:
@@ -98,6 +119,7 @@ func (x *Exec) callFunc(st *State, fr *Frame, site ssa.Instruction, fn *ssa.Func
 	}
 	fc := x.E.contractFor(fn)
 	if fc != nil && !fc.Inline {
+		x.callBinds = binds
 		x.modularCall(st, fr, site, fc, fn, fn.Signature, fnParamNames(fn), args, where, k)
 		return
 	}
@@ -233,6 +255,13 @@ func (x *Exec) modularCall(st *State, fr *Frame, site ssa.Instruction, fc *FuncC
 	x.E.noteContractUse(fc)
 	cname := fc.Name
 	env := &Env{x: x, st: st, old: st, vars: map[string]Val{}, pkgPath: x.E.pkgOfContract(fc), fc: fc}
+	// a closure called against its contract: the names of its captured variables denote the caller's cells
+	var cfr *Frame
+	if fn != nil && len(fn.FreeVars) > 0 && len(x.callBinds) == len(fn.FreeVars) {
+		cfr = &Frame{fn: fn, fc: fc, freeVars: x.callBinds}
+		env.fr = cfr
+	}
+	x.callBinds = nil
 	for i, n := range pnames {
 		if i < len(args) {
 			env.vars[n] = args[i]
@@ -252,7 +281,7 @@ func (x *Exec) modularCall(st *State, fr *Frame, site ssa.Instruction, fc *FuncC
 	nb := x.E.fresh("brk", IntS)
 	post.assume(Le(post.brk, nb))
 	post.brk = nb
-	menv := &Env{x: x, st: pre, old: pre, vars: env.vars, pkgPath: env.pkgPath, fc: fc}
+	menv := &Env{x: x, st: pre, old: pre, vars: env.vars, pkgPath: env.pkgPath, fc: fc, fr: cfr}
 	for _, m := range fc.Modifies {
 		x.applyModifies(post, pre, fr, menv, m, where)
 	}
@@ -262,7 +291,7 @@ func (x *Exec) modularCall(st *State, fr *Frame, site ssa.Instruction, fc *FuncC
 	if results.Len() == 1 {
 		res.T = results.At(0).Type()
 	}
-	penv := &Env{x: x, st: post, old: pre, vars: map[string]Val{}, pkgPath: env.pkgPath, fc: fc, ghostScope: map[string]*Term{}}
+	penv := &Env{x: x, st: post, old: pre, vars: map[string]Val{}, pkgPath: env.pkgPath, fc: fc, ghostScope: map[string]*Term{}, fr: cfr}
 	for n, v := range env.vars {
 		penv.vars[n] = v
 	}
@@ -991,6 +1020,37 @@ func (x *Exec) frameCheckElemCond(st *State, top *Frame, elemKey string, ref, lo
 		alts = append(alts, And(Eq(ref, sv.L[0]), Le(sv.L[1], lo), Lt(hi, Add(sv.L[1], sv.L[2]))))
 	}
 	x.oblige(st, "frame", "modifies", Implies(cond, Or(alts...)), "element write is covered by the modifies clause", where)
+}
+
+// singleClosureSite: like singleClosureOf, also returning the MakeClosure instruction (nil for a plain function).
+func singleClosureSite(v ssa.Value) (*ssa.Function, *ssa.MakeClosure) {
+	u, ok := v.(*ssa.UnOp)
+	if !ok {
+		return nil, nil
+	}
+	al, ok := u.X.(*ssa.Alloc)
+	if !ok || al.Referrers() == nil {
+		return nil, nil
+	}
+	var fn *ssa.Function
+	var site *ssa.MakeClosure
+	for _, r := range *al.Referrers() {
+		if s, ok := r.(*ssa.Store); ok && s.Addr == al {
+			if fn != nil {
+				return nil, nil
+			}
+			switch v := s.Val.(type) {
+			case *ssa.MakeClosure:
+				fn, _ = v.Fn.(*ssa.Function)
+				site = v
+			case *ssa.Function:
+				fn = v
+			default:
+				return nil, nil
+			}
+		}
+	}
+	return fn, site
 }
 
 // singleClosureOf: v is a load of a local variable whose only store is one closure.
